@@ -7,7 +7,7 @@ Import ListNotations.
 Open Scope N_scope.
 
 (* the log the property demands of the task *)
-Definition expected (tk0 : task) : list N := exp_run (t_start tk0) (t_steps tk0).
+Definition expected (tk0 : task) : list N := exp_run (t_start tk0) None (t_steps tk0).
 
 (* a task as the decoder produces it, restricted to the fragment; all its deadlines are finite
    (below SimTime::MAX = TMAX, i.e. 2^62 - 1 ns: a Sleep with deadline SimTime::MAX never elapses) *)
@@ -25,9 +25,9 @@ Inductive tstate (tk0 tk : task) : Prop :=
 | TUn : tk = tk0 -> tstate tk0 tk
 | TBl a st rest :
     t_mod tk = t_mod tk0 -> t_start tk = t_start tk0 -> t_steps tk = st :: rest -> Forall frag_step rest ->
-    t_cur tk = Some a -> t_iv tk = None -> t_fin tk = false -> aw_kind a ->
-    Forall (fun s => handle s = Some (deadline s)) (aw_held a) -> NoDup (map sid (aw_held a)) ->
-    expected tk0 = t_log tk ++ aw_rec a ++ exp_run (aw_wake a) rest -> tstate tk0 tk
+    t_cur tk = Some a -> t_fin tk = false -> aw_kind a (t_iv tk) ->
+    Forall (fun s => handle s = Some (deadline s)) (aw_held a (t_iv tk)) -> NoDup (map sid (aw_held a (t_iv tk))) ->
+    expected tk0 = t_log tk ++ aw_rec a (t_iv tk) ++ exp_run (aw_end a (t_iv tk)) (iv_abs (iv_after a (t_iv tk))) rest -> tstate tk0 tk
 | TDn :
     t_mod tk = t_mod tk0 -> t_start tk = t_start tk0 -> t_steps tk = [] -> t_cur tk = None -> t_iv tk = None ->
     t_fin tk = true -> t_log tk = expected tk0 -> tstate tk0 tk.
@@ -46,13 +46,21 @@ Record Tie (ts : list task) (t : N) (q : list nat) (m : N) (dr : driver) : Prop 
   tie_nodup : forall d, NoDup (ents_at d (pending dr)) }.
 
 (* what does not depend on where in an event we are *)
+(* the Sleeps a task owns: those it holds, and the Sleep of its interval (not registered, hence
+   not held, outside of tick().await) *)
+Definition owned (tk : task) : list sleep := held tk ++ match t_iv tk with Some i => [iv_delay i] | None => [] end.
+
 Record Base (ts0 ts : list task) (own : wakers) (nid : N) : Prop := {
   b_states : Forall2 tstate ts0 ts;
   b_init : Forall init_ok ts0;
   b_ids : forall k tk s, nth_error ts k = Some tk -> In s (held tk) ->
           sid s < nid /\ waker_of own (sid s) = Some k;
+  b_own : forall k tk s, nth_error ts k = Some tk -> In s (owned tk) -> sid s < nid;
   b_distinct : forall k k' tk tk' s s', nth_error ts k = Some tk -> nth_error ts k' = Some tk' ->
-               In s (held tk) -> In s' (held tk') -> sid s = sid s' -> k = k' }.
+               In s (owned tk) -> In s' (owned tk') -> sid s = sid s' -> k = k' }.
+
+Lemma held_owned tk s : In s (held tk) -> In s (owned tk).
+Proof. intros H. apply in_or_app. left; exact H. Qed.
 
 (* the messages in the event set: one for every unspawned task that is not exempt ([later]) *)
 Record Msgs (ts : list task) (l : list ev) (later : nat -> Prop) : Prop := {
@@ -81,10 +89,10 @@ Record WInv (ts0 : list task) (later : nat -> Prop) (w : world) : Prop := {
 
 (* ---- small facts ---- *)
 Lemma tstate_cases tk0 tk : tstate tk0 tk -> init_ok tk0 ->
-  t_iv tk = None /\ t_mod tk = t_mod tk0 /\ t_start tk = t_start tk0 /\
-  (t_cur tk = None \/ exists a, t_cur tk = Some a /\ aw_kind a).
+  t_mod tk = t_mod tk0 /\ t_start tk = t_start tk0 /\
+  (t_cur tk = None \/ exists a, t_cur tk = Some a /\ aw_kind a (t_iv tk)).
 Proof.
-  intros [->|a st rest H1 H2 H3 H4 H5 H6 H7 H8 H9 H10 H11|H1 H2 H3 H4 H5 H6 H7] (I1 & I2 & I3 & I4 & I5 & I6 & I7).
+  intros [->|a st rest H1 H2 H3 H4 H5 H7 H8 H9 H10 H11|H1 H2 H3 H4 H5 H6 H7] (I1 & I2 & I3 & I4 & I5 & I6 & I7).
   - repeat split; try assumption; try reflexivity. left; exact I2.
   - repeat split; try assumption. right; exists a; split; assumption.
   - repeat split; try assumption. left; exact H4.
@@ -123,48 +131,65 @@ Lemma length_set_nth {A} (l : list A) k x : length (set_nth k x l) = length l.
 Proof. revert k; induction l as [|a l IH]; intros k; [destruct k; reflexivity|]. destruct k; cbn [set_nth length]; [reflexivity|rewrite IH; reflexivity]. Qed.
 
 (* no task of the fragment ever waits on a channel *)
-Lemma aw_kind_no_wait a : aw_kind a -> waits_on (Some a) = None.
-Proof. destruct a as [s|v dl| | | | | | |]; try contradiction; [reflexivity|]. destruct v; try contradiction. reflexivity. Qed.
+Lemma aw_kind_no_wait a iv : aw_kind a iv -> waits_on (Some a) = None.
+Proof. destruct a as [s|v dl| | | | | | |]; try contradiction; try reflexivity. destruct v; try contradiction. reflexivity. Qed.
+
+Lemma min2 (s1 s2 : sleep) : (exists s, In s [s1; s2] /\ deadline s = N.min (deadline s1) (deadline s2)) /\
+  forall s, In s [s1; s2] -> N.min (deadline s1) (deadline s2) <= deadline s.
+Proof.
+  split.
+  - destruct (N.min_spec (deadline s1) (deadline s2)) as [[_ E]|[_ E]]; rewrite E;
+      [exists s1; split; [left; reflexivity|reflexivity]|exists s2; split; [right; left; reflexivity|reflexivity]].
+  - intros s' [<-|[<-|[]]]; lia.
+Qed.
 
 Lemma no_receivers ts0 ts m mail : Forall2 tstate ts0 ts -> Forall init_ok ts0 -> forall i, ready_receivers m mail i ts = [].
 Proof.
   intros H. induction H as [|x y l l' Hxy H IH]; intros Hi i; [reflexivity|].
   inversion Hi as [|? ? Hx Hl]; subst. cbn [ready_receivers].
-  destruct (tstate_cases _ _ Hxy Hx) as (_ & _ & _ & [Hc|(a & Hc & Hk)]); rewrite Hc.
+  destruct (tstate_cases _ _ Hxy Hx) as (_ & _ & [Hc|(a & Hc & Hk)]); rewrite Hc.
   - cbn [waits_on]. apply IH; exact Hl.
-  - rewrite (aw_kind_no_wait a Hk). apply IH; exact Hl.
+  - rewrite (aw_kind_no_wait a _ Hk). apply IH; exact Hl.
 Qed.
 
 (* facts about the await states of the fragment *)
-Lemma aw_wake_held a : aw_kind a -> (exists s, In s (aw_held a) /\ deadline s = aw_wake a) /\ forall s, In s (aw_held a) -> aw_wake a <= deadline s.
+Lemma aw_wake_held a iv : aw_kind a iv ->
+  (exists s, In s (aw_held a iv) /\ deadline s = aw_wake a iv) /\ forall s, In s (aw_held a iv) -> aw_wake a iv <= deadline s.
 Proof.
-  destruct a as [s|v dl| | | | | | |]; try contradiction.
+  destruct a as [s|v dl|biased tie sa sb| | | | |rearm d3 s sx|pre s]; try contradiction.
   - intros _. cbn [aw_held held_sleeps aw_wake]. split; [exists s; split; [left; reflexivity|reflexivity]|intros s' [<-|[]]; lia].
-  - destruct v as [s| | |]; try contradiction. intros _. cbn [aw_held held_sleeps aw_wake]. split.
-    + destruct (N.min_spec (deadline s) (deadline dl)) as [[_ E]|[_ E]]; rewrite E;
-        [exists s; split; [left; reflexivity|reflexivity]|exists dl; split; [right; left; reflexivity|reflexivity]].
-    + intros s' [<-|[<-|[]]]; lia.
+  - destruct v as [s| | |]; try contradiction. intros _. cbn [aw_held held_sleeps aw_wake]. apply min2.
+  - intros _. cbn [aw_held held_sleeps aw_wake]. apply min2.
+  - destruct iv as [i|]; [|intros H; contradiction H; reflexivity]. intros _. cbn [aw_held held_sleeps aw_wake].
+    split; [exists (iv_delay i); split; [left; reflexivity|reflexivity]|intros s' [<-|[]]; lia].
+  - intros _. cbn [aw_held held_sleeps aw_wake]. apply min2.
+  - intros _. cbn [aw_held held_sleeps aw_wake]. split; [exists s; split; [left; reflexivity|reflexivity]|intros s' [<-|[]]; lia].
 Qed.
 
-Lemma aw_rec_head a : aw_kind a -> exists r, aw_rec a = aw_wake a :: r.
+Lemma aw_wake_in_rec a iv : aw_kind a iv -> In (aw_wake a iv) (aw_rec a iv).
 Proof.
-  destruct a as [s|v dl| | | | | | |]; try contradiction; [intros _; exists []; reflexivity|].
-  destruct v as [s| | |]; try contradiction. intros _. eexists. reflexivity.
+  destruct a as [s|v dl|biased tie sa sb| | | | |rearm d3 s sx|pre s]; try contradiction.
+  - intros _. left; reflexivity.
+  - destruct v as [s| | |]; try contradiction. intros _. left; reflexivity.
+  - intros _. left; reflexivity.
+  - destruct iv as [i|]; [|intros H; contradiction H; reflexivity]. intros _. left; reflexivity.
+  - intros _. cbn [aw_wake aw_rec]. destruct (deadline s <=? deadline sx) eqn:E; left; lia.
+  - intros _. cbn [aw_wake aw_rec]. apply in_or_app. right. left. reflexivity.
 Qed.
 
 (* the instant a blocked task will complete its await is finite *)
-Lemma blocked_fin tk0 tk a : tstate tk0 tk -> init_ok tk0 -> t_cur tk = Some a -> aw_wake a < TMAX.
+Lemma blocked_fin tk0 tk a : tstate tk0 tk -> init_ok tk0 -> t_cur tk = Some a -> aw_wake a (t_iv tk) < TMAX.
 Proof.
   intros Hst (_ & I2 & _ & _ & _ & _ & I7) Hc.
-  destruct Hst as [->|a' st rest _ _ _ _ H5 _ _ Hk _ _ H9|_ _ _ H4 _ _ _].
+  destruct Hst as [->|a' st rest _ _ _ _ H5 _ Hk _ _ H9|_ _ _ H4 _ _ _].
   - rewrite I2 in Hc. discriminate.
   - rewrite H5 in Hc. injection Hc as ->. rewrite Forall_forall in I7. apply I7. rewrite H9.
-    destruct (aw_rec_head a Hk) as (r0 & ->). apply in_or_app. right. left. reflexivity.
+    apply in_or_app. right. apply in_or_app. left. exact (aw_wake_in_rec a _ Hk).
   - rewrite H4 in Hc. discriminate.
 Qed.
 
 Lemma base_blocked_fin ts0 ts own nid k tk a : Base ts0 ts own nid -> nth_error ts k = Some tk ->
-  t_cur tk = Some a -> aw_wake a < TMAX.
+  t_cur tk = Some a -> aw_wake a (t_iv tk) < TMAX.
 Proof.
   intros B Hk Hc. destruct (Forall2_nth _ _ _ _ _ (b_states _ _ _ _ B) Hk) as (tk0 & Hk0 & Hst).
   apply (blocked_fin tk0 tk a Hst); [|exact Hc]. pose proof (b_init _ _ _ _ B) as Ha. rewrite Forall_forall in Ha.
@@ -173,12 +198,12 @@ Qed.
 
 (* a task that holds a Sleep is blocked on an await state of the fragment that holds it *)
 Lemma held_blocked tk0 tk s : tstate tk0 tk -> init_ok tk0 -> In s (held tk) ->
-  exists a, t_cur tk = Some a /\ aw_kind a /\ In s (aw_held a) /\ handle s = Some (deadline s) /\
-            NoDup (map sid (aw_held a)) /\ held tk = aw_held a.
+  exists a, t_cur tk = Some a /\ aw_kind a (t_iv tk) /\ In s (aw_held a (t_iv tk)) /\ handle s = Some (deadline s) /\
+            NoDup (map sid (aw_held a (t_iv tk))) /\ held tk = aw_held a (t_iv tk).
 Proof.
   intros Hst (_ & I2 & I3 & _) Hin. unfold held in *.
-  destruct Hst as [->|a st rest _ _ _ _ H5 H6 _ Hk Hh Hnd _|_ _ _ H4 _ _ _].
+  destruct Hst as [->|a st rest _ _ _ _ H5 _ Hk Hh Hnd _|_ _ _ H4 _ _ _].
   - rewrite I2 in Hin. contradiction.
-  - rewrite H5, H6 in *. exists a. rewrite Forall_forall in Hh. repeat split; try assumption; try reflexivity. exact (Hh s Hin).
+  - rewrite H5 in *. exists a. rewrite Forall_forall in Hh. repeat split; try assumption; try reflexivity. exact (Hh s Hin).
   - rewrite H4 in Hin. contradiction.
 Qed.
